@@ -4,8 +4,10 @@ are complete proofs; anything with an unwind bound is reported as bounded."""
 import os, re, subprocess, time
 ROOT = os.path.dirname(os.path.dirname(os.path.abspath(__file__)))
 SETS = {
-    "opt_enums": dict(cwd="/repo", args=["--features", "luau,lua52,lua53,lua54,luajit"], harness_prefix="verif_kani::", bounded=False,
+    "opt_enums": dict(cwd="/repo", args=["--features", "luau,lua52,lua53,lua54,luajit"] + [x for h in ("lua_version", "line_endings", "indent_type", "quote_style", "call_parentheses", "collapse_simple_statement", "space_after_function_names") for x in ("--harness", h)], bounded=False,
                       text="every variant of every Arg* enum converts to the same-named stylua_lib variant and back (complete enumeration, loop-free)"),
+    "shape": dict(cwd="/repo", args=["--features", "luau,lua52,lua53,lua54,luajit", "--harness", "shape_width_arithmetic", "--harness", "indent_levels_never_overflow"], bounded=False,
+                  text="Shape/Indent width bookkeeping: no overflow and exact results for indent width < 2^16, nesting < 2^24, offsets/widths < 2^32 (loop-free, full domain within the stated input bounds); the level operations saturate over the full usize domain"),
 }
 
 def run(name, tier):
